@@ -56,7 +56,7 @@ template <class B> void use()
     (void)v.front(); (void)v.back(); (void)cv.front(); (void)cv.back(); (void)v.begin(); (void)v.end(); (void)cv.begin(); (void)cv.end();
     (void)v.empty(); (void)v.size(); (void)v.block_count(); (void)v.data(); (void)cv.data();
     (void)~v; (void)(v << 1); (void)(v >> 1); v.swap(v);
-    auto r = a[1]; r = true; r = a[0]; r &= true; r |= true; r ^= true; r.flip(); (void)~r; (void)bool(r); (void)&r;
+    auto r = a[1]; r = true; r = a[0]; { auto r2 = a[0]; r = r2; } r &= true; r |= true; r ^= true; r.flip(); (void)~r; (void)bool(r); (void)&r;
     auto cr = ca[1]; (void)bool(cr); (void)~cr;
     auto it = a.begin(); ++it; --it; it += 1; it -= 1; (void)(it - a.begin()); (void)(it == a.begin()); (void)(it < a.end()); (void)*it;
 }
